@@ -24,8 +24,8 @@ pub fn flush(addr: VirtAddr) {
 #[inline]
 pub fn flush_all() {
     use crate::registers::control::Cr3;
-    let (frame, flags) = Cr3::read();
-    unsafe { Cr3::write(frame, flags) }
+    let (frame, value) = Cr3::read_raw();
+    unsafe { Cr3::write_raw(frame, value) }
 }
 
 /// The Invalidate PCID Command to execute.
